@@ -395,22 +395,31 @@ def disturb_handles(rng) -> int:
     return moved
 
 
-FAULT = {"countdown": None, "fired": 0}  # injected I/O error: the n-th backend read from now on raises EIO (all proxies)
+# injected backend fault: the n-th backend read from now on (any proxy) either raises EIO or comes back short
+FAULT = {"countdown": None, "fired": 0, "mode": "eio"}
 
 
-def arm_fault(n: int | None) -> None:
+def arm_fault(n: int | None, mode: str = "eio") -> None:
     FAULT["countdown"] = n
+    FAULT["mode"] = mode
 
 
-def _maybe_fault() -> None:
+def _maybe_fault(n: int | None = None) -> str | None:
+    """-> None (no fault now) | 'short' / 'empty' (the caller returns a short/empty result); raises for mode 'eio'.
+
+    What a reader returns for a read during which the backend came back short is not judged (a regular file is short
+    only at its end); what it *keeps* is: see diskcheck.fault_retry_reads."""
     c = FAULT["countdown"]
     if c is None:
-        return
+        return None
     if c <= 1:
         FAULT["countdown"] = None
         FAULT["fired"] += 1
-        raise OSError(5, "Input/output error (injected by the harness)")
+        if FAULT["mode"] == "eio":
+            raise OSError(5, "Input/output error (injected by the harness)")
+        return FAULT["mode"]
     FAULT["countdown"] = c - 1
+    return None
 
 
 class ProxyFile:
@@ -457,7 +466,11 @@ class ProxyFile:
             raise BudgetExceeded(f"read budget {self.budget} exceeded at offset {pos:#x} (+{req})")
 
     def read(self, n: int = -1) -> bytes:
-        _maybe_fault()
+        fault = _maybe_fault(n)
+        if fault == "empty":
+            return b""
+        if fault == "short" and n is not None and n > 1:
+            n = n // 2
         pos = self._fh.tell()
         if (n is None or n < 0) and self.budget is not None and self._size is not None:
             if self._size - pos > self.budget:
@@ -474,7 +487,8 @@ class ProxyFile:
         return b
 
     def readinto(self, buf) -> int:
-        _maybe_fault()
+        if _maybe_fault(len(buf)) is not None:
+            return 0
         pos = self._fh.tell()
         data = self._fh.read(len(buf))
         buf[: len(data)] = data
